@@ -24,6 +24,13 @@ def sh(cmd, cwd=None, timeout=3600):
 def demo_cmd(src, root, out):
     """build command: the demo's own first-comment command if it has one with $ROOT, else a default"""
     txt = open(src, errors="replace").read(3000)
+    m = re.search(r"((?:gcc|clang-14)\s[^\n]*\$ROOT[^\n]*?-o\s+\S+)", txt)
+    if m and ("-fsanitize=thread" in m.group(1) or "-ldl" in m.group(1)):
+        # the demo states its own build command (needed for ThreadSanitizer / extra libraries)
+        cmd = m.group(1).replace("$ROOT", root)
+        cmd = re.sub(r"(?<=\s)demo\d*\.c(?=\s)", src, cmd)
+        cmd = re.sub(r"-o\s+\S+$", "-o " + out, cmd) + " -w"
+        return cmd
     san = "-fsanitize=address,undefined" in txt
     m = re.search(r"gcc -std=(\w+)", txt)
     std = "-std=c99 -DGP_PEDANTIC" if m and m.group(1) == "c99" else "-std=gnu11"      # the configuration the demo names first
